@@ -5,7 +5,7 @@
 WT=/tmp/mutwt
 git -C /repo worktree remove --force $WT 2>/dev/null
 git -C /repo worktree add -q --detach $WT HEAD || exit 2
-trap 'git -C /repo checkout -q -- . ; git -C /repo worktree remove --force $WT 2>/dev/null' EXIT
+trap '[ -n "$VERIF_REPO_LOCK_HELD" ] && git -C /repo checkout -q -- . ; git -C /repo worktree remove --force $WT 2>/dev/null' EXIT
 out="$VERIF_ROOT/mutants/RESULTS.tsv"
 [ -z "$1" ] && : > "$out"
 for f in "$VERIF_ROOT"/mutants/${1:-*}.patch; do
